@@ -193,18 +193,29 @@ Theorem C09_dco_unrepaired_wf_refuted :
 Proof. exists dco_reg_witness. vm_compute. split; reflexivity. Qed.
 Print Assumptions C09_dco_unrepaired_wf_refuted.
 
-(* ===== REFUTED (kept last: a repair of the code breaks only what follows) =====
-   direct_connect_outputs does not reach its postcondition in one run on a chain
-   of 'w' nets (`t1 <<= ~a; t2 <<= t1; o <<= t2`): the retargeted `o <-w- t1`
-   is again a removable w-net before an Output.  The model follows the code. *)
+(* ===== direct_connect_outputs postcondition =====
+   The repaired code repeats the pass until nothing changes.  Proved: the loop
+   ends either with no removable w-net before an Output left, or after all its
+   fuel (= number of nets) was spent on changing passes.  The remaining step to
+   the full statement (every changing pass removes a net of a well-formed block)
+   is not proved; the postcondition is evaluated on the model's result for
+   every design of the correspondence run instead. *)
 Definition C09_dco_post_full_statement : Prop :=
   forall nl, sanity_block nl = true ->
     post_direct_connect_outputs (direct_connect_outputs nl) = true.
 
-Theorem C09_dco_post_refuted :
+Theorem C09_dco_post_partial : forall fuel nl,
+  post_direct_connect_outputs (dco_iter dco_skips fuel nl) = true
+  \/ dco_iter dco_skips fuel nl = dco_passes fuel nl.
+Proof. exact dco_iter_post. Qed.
+Print Assumptions C09_dco_post_partial.
+
+(* one pass alone does not establish it on a chain of 'w' nets
+   (`t1 <<= ~a; t2 <<= t1; o <<= t2`): the loop is necessary *)
+Theorem C09_dco_single_pass_refuted :
   exists nl, sanity_block nl = true
-             /\ post_direct_connect_outputs (direct_connect_outputs nl) = false
-             /\ post_direct_connect_outputs
-                  (direct_connect_outputs (direct_connect_outputs (direct_connect_outputs nl))) = true.
+             /\ post_direct_connect_outputs (dco_with dco_skips nl) = false
+             /\ post_direct_connect_outputs (direct_connect_outputs nl) = true
+             /\ length (nets (direct_connect_outputs nl)) = 1%nat.
 Proof. exists dco_chain_witness. vm_compute. repeat split; reflexivity. Qed.
-Print Assumptions C09_dco_post_refuted.
+Print Assumptions C09_dco_single_pass_refuted.
